@@ -155,4 +155,50 @@ def P.labelDesc (p : P) (str : Nat) (src : Option (Option Nat × Option Nat × O
     | _, _, _ => none
   | _ => none
 
+/-- a frame address resolved to (relative address, `LibraryHandle`), or not covered by any mapping -/
+inductive LibAddr
+  | unknown (a : Nat)
+  | inLib (rel lib : Nat)
+
+/-- `resolve_frame_address` (profile.rs:1163-1196) at the level of library *handles*, before the library is
+marked used; `none` = the `u32` addition in `convert_address` overflows -/
+def resolveLib (maps : List Mapping) : AddrSpec → Option LibAddr
+  | .abs k a =>
+    match mappingConvert maps (k.adjust a) with
+    | none => none
+    | some none => some (.unknown (k.adjust a))
+    | some (some (rel, lib)) => some (.inLib rel lib)
+  | .rel k lib a => some (.inLib (k.adjust a) lib)
+
+/-- the library / address / name / native-symbol part of the description of an address frame on thread `th`
+(global library table `libs`) whose address resolved to `la`: an address no mapping covers has the hex
+string as name and no library, address or native symbol; an address inside library `lib` has the library's
+identity, the relative address, and — if the library's symbol table has a symbol covering it — the native
+symbol (library, symbol address, size, name) with the name as frame name, where size and name are the
+symbol's if (library, address) is not yet registered on the thread and those of the registered row
+otherwise; else the hex string of the relative address as name and no native symbol -/
+def addrTail (libs : GlobalLibs) (th : Thread) (la : LibAddr) (d : FrameDesc) : Prop :=
+  match la with
+  | .unknown addr => d.name = hexStr addr ∧ d.lib = none ∧ d.addr = none ∧ d.nsym = none
+  | .inLib rel lib => ∃ id, libs.all[lib]? = some id ∧ d.lib = some id ∧ d.addr = some rel ∧
+    match (alookup libs.symtabs lib).bind (fun tab => symLookup tab rel) with
+    | none => d.name = hexStr rel ∧ d.nsym = none
+    | some sym => ∃ sz nm, d.nsym = some (id, sym.addr, sz, nm) ∧ d.name = nm ∧
+        ((∀ u : Nat, libs.used[u]? = some lib →
+            ¬ ∃ j' : Nat, th.nsyms.libs[j']? = some u ∧ th.nsyms.addrs[j']? = some sym.addr) →
+          sz = sym.size ∧ nm = sym.name) ∧
+        (∀ (u j' : Nat) (d0 : Str × Nat × Option Nat × Str), libs.used[u]? = some lib →
+          th.nsyms.libs[j']? = some u → th.nsyms.addrs[j']? = some sym.addr →
+          nsymOfCols th.strings.table.strings libs.getLibName th.nsyms.addrs th.nsyms.sizes th.nsyms.libs
+            th.nsyms.names j' = some d0 → d0 = (id, sym.addr, sz, nm))
+
+/-- what `handle_for_frame_with_address(thread t, address a, subcategory sc, flags)` is asked to intern in
+state `p`, as a predicate on the description `d`: category / subcategory names behind the subcategory
+handle, no file / line / column, inline depth 0, the flags, and `addrTail` for the resolved address -/
+def P.AddrFrameSpec (p : P) (t : Nat) (a : AddrSpec) (sc : SubSpec) (flags : Nat) (d : FrameDesc) : Prop :=
+  ∃ p1 c s cs th pr la, p.resolveSub sc = (p1, .ok c s) ∧ subNames p1.cats c s = some cs ∧
+    p.threads[t]? = some th ∧ p.processes[th.process]? = some pr ∧ resolveLib pr.maps a = some la ∧
+    d.cat = cs.1 ∧ d.sub = cs.2 ∧ d.depth = 0 ∧ d.file = none ∧ d.line = none ∧ d.col = none ∧ d.flags = flags ∧
+    addrTail p.libs th la d
+
 end PT
